@@ -1,3 +1,7 @@
--- This module serves as the root of the `Cqos` library.
--- Import modules here that should be built as part of the library.
-import Cqos.Basic
+import Cqos.Dist
+import Cqos.Divider
+import Cqos.Rate
+import Cqos.Utils
+import Cqos.Tactic
+import Cqos.Proto
+import Cqos.DriverPure
